@@ -106,3 +106,21 @@ Theorem C15_source_invalidate_by_labels :
                   ("for each name of the snapshot: invalidate, add up, stop at the first error", [])].
 Proof. exact tie_invalidate_by_labels. Qed.
 Print Assumptions C15_source_invalidate_by_labels.
+
+(* ---- registration of deleters ---- *)
+Theorem C15_source_add_cache : forall had,
+  run_add_cache had =
+  Some [("Lock", []); ("defer i.mu.Unlock", []);
+        ("assign i.deleters[name]",
+         [VRec "append" [("to", VPtr had "deleters registered under the name"); ("the", VPtr true "deleter")]])].
+Proof. exact tie_index_add_cache. Qed.
+Print Assumptions C15_source_add_cache.
+
+Theorem C15_source_new_index : forall n,
+  run_new_index n =
+  Some ([VRec "InvalidationIndex"
+           [("deleters", VRec "make" [("type", VStr "type map[string][]Deleter")]);
+            ("labeledKeysByName", VRec "make" [("type", VStr "type map[string]map[string][]string")])]],
+        if 0 <? n then [("assign ds[""default""]", [VPtr true "deleters"])] else []).
+Proof. exact tie_new_index. Qed.
+Print Assumptions C15_source_new_index.
